@@ -2,8 +2,8 @@
 # Re-run every kept seeded mutant and every neutral (behaviour-preserving) patch against the current machinery,
 # in K parallel runners.  Each runner has its own scratch worktree of /repo (outside /repo and /verif), its own
 # copy of /verif and its own scratch directory, so /repo and /verif/evidence are never touched.
-# usage: tools/rerun_all.sh [K] [seeded|neutral|all]     results: /var/tmp/mut/rerun/results.txt
-K=${1:-3}; WHAT=${2:-all}
+# usage: tools/rerun_all.sh [K] [seeded|neutral|all] ["neutral4 neutral5"]     results: /var/tmp/mut/rerun/results.txt
+K=${1:-3}; WHAT=${2:-all}; BATCHES=${3:-"neutral neutral2 neutral3 neutral4 neutral5"}
 OUT=/var/tmp/mut/rerun; rm -rf $OUT; mkdir -p $OUT
 JOBS=$OUT/jobs.txt; : > $JOBS
 if [ "$WHAT" != neutral ]; then
@@ -14,8 +14,8 @@ if [ "$WHAT" != neutral ]; then
   done
 fi
 if [ "$WHAT" != seeded ]; then
-  for b in neutral neutral2 neutral3; do
-    sc=/verif/tools/run_${b}.sh; [ $b = neutral ] && sc=/verif/tools/run_neutral.sh
+  for b in $BATCHES; do
+    sc=/verif/tools/run_${b}.sh
     # the property lists live in the batch scripts: declare -A P=( [n01]=C04 [n02]="C04 C06" .. )
     python3 - "$sc" "$b" >> $JOBS <<'E'
 import re,sys
